@@ -95,6 +95,16 @@ CLAIMS = {
           'selected positions compared with the Lean index model; parent/child interference histories (add/rename/remove extra property, circular/kron photometry, to_table).',
   'note': 'Trusted: Lean kernel + standard axioms; AST extractor of init_attr / in-place mutations; documented exceptions: `labels`/`ids` are always iterable.',
  },
+ 'C07': {
+  'design_ref': 'DESIGN.md §5 C07',
+  'technique': 'Lean 4 theorems on a per-label measurement model (columns as explicit formulas over the label\'s pixel list) + correspondence with SourceCatalog and metamorphic oracles',
+  'text': 'The model (Model/Catalog.lean) writes each modelled column - segment_flux, fluxerr^2, area, segment_area, bounding box, min/max value and index (first in raster order), raw moments of the zeroed convolved cut-out, centroid = cut-out centroid + box origin, '
+          'normalised second central moments, background sum - as an explicit formula over the pixels carrying the label that are unmasked and finite (these ARE the defining formulas of the statement). Proved in Lean for all inputs: every column of label l is identical for two inputs agreeing on l\'s pixels, '
+          'whatever differs elsewhere, incl. other labels inside the bounding box (row_local); values under masked pixels never matter (flux_blind_to_masked); an injective relabelling leaves every row unchanged (row_relabel_invariant, pix_relabel_inj); the catalogue is a map over its labels so reordering only permutes rows (rows_perm); '
+          'a completely masked / non-finite source gives NaN (all_masked_nan). Tie: every modelled column of real SourceCatalogs on dyadic scenes (touching, nested, non-connected, edge-hugging labels, gaps, NaN/inf inside segments, masks, separate convolved data, error/background maps) compared with the model (exact for integer columns, 1e-10 for sums), '
+          'and on disagreement a direct numpy oracle decides. [partial] covariance is compared only where the 1/12 regularisation is inactive; kron, flux-fraction radii, windowed centroid, local background, perimeter, gini and eigen-derived shape columns are covered only by the locality / relabel / reorder oracles on the implementation.',
+  'note': 'Trusted: Lean kernel + standard axioms; hand model tied by differential testing; sqrt and eigen-decomposition not modelled; float summation order (1e-10).',
+ },
 }
 
 _todo = 'check not built yet in this round (see DESIGN.md §10 build order); not claimed until its machinery is committed'
